@@ -387,3 +387,134 @@ def read_sessions(tier, seed):
             cases.append({"cid": c + 1, "kind": "read", "query": text, "meta": {"ast": ast, "flavour": flavour}})
         sessions.append({"id": "read/%d" % g, "setup": setup, "dump": True, "cases": cases})
     return sessions
+
+
+# ----------------------------------------------------------------------------- C15: index histories
+IDX_VALUES = [1, 2, 1.0, "a", True]
+
+
+def lookup_cases(cid0, indexed):
+    """equality lookups for every (label, value) in two syntactic forms, as read ASTs"""
+    cases = []
+    cid = cid0
+    for lab in ("L1", "L2"):
+        for v in IDX_VALUES:
+            npat_where = {"nodes": [{"v": "n", "labels": [lab], "props": []}], "rels": []}
+            ret = {"distinct": False, "items": [{"e": ["id", ["var", "n"]], "as": "i"}], "order": [], "skip": -1, "limit": -1}
+            ast1 = {"parts": [{"t": "match", "opt": False, "pats": [npat_where],
+                               "where": ["cmp", "=", ["prop", ["var", "n"], "p"], ["lit", tv_of(v)]]}], "ret": ret}
+            q1 = "MATCH (n:%s) WHERE n.p = %s RETURN id(n) AS i" % (lab, lit_text(v))
+            npat_inline = {"nodes": [{"v": "n", "labels": [lab], "props": [["p", ["lit", tv_of(v)]]]}], "rels": []}
+            ast2 = {"parts": [{"t": "match", "opt": False, "pats": [npat_inline], "where": ["none"]}], "ret": ret}
+            q2 = "MATCH (n:%s {p: %s}) RETURN id(n) AS i" % (lab, lit_text(v))
+            for ast, q in ((ast1, q1), (ast2, q2)):
+                cid += 1
+                cases.append({"cid": cid, "kind": "idx", "query": q, "meta": {"ast": ast, "indexed": indexed}})
+    return cases, cid
+
+
+def index_sessions(tier, seed):
+    rng = random.Random(seed)
+    sessions = []
+    n_hist = 5 if tier == "quick" else 60
+    for h in range(n_hist):
+        steps = []
+        n_nodes = 0
+        # most nodes share one favourite value (and its other numeric spelling), so that equal values sit on both
+        # sides of the index creation and several nodes answer one lookup
+        fav = rng.choice([[1, 1, 1.0], [2, 2, 2], ["a", "a", "a"], [True, True, 1]])
+
+        def val():
+            return rng.choice(fav) if rng.random() < 0.7 else rng.choice(IDX_VALUES)
+        index_at = rng.randint(0, 5)
+        index_spec = rng.choice([("L1", "p"), ("L1", "p"), ("L2", "p")])
+        for stp in range(rng.randint(8, 12)):
+            if stp == index_at:
+                steps.append(("admin", "#index %s %s" % index_spec))
+            c = rng.choice(["create", "create", "create", "update", "update", "remprop", "addlabel", "remlabel", "delete",
+                            "compact", "reopen", "byvalue"])
+            if n_nodes == 0:
+                c = "create"
+            if c == "create":
+                labs = rng.choice([":L1", ":L1", ":L2", ":L1:L2", ":L2:L1"])
+                props = {}
+                if rng.random() < 0.85:
+                    props["p"] = val()
+                steps.append(("write", "CREATE (%s%s)" % (labs, " {p: %s}" % lit_text(props["p"]) if props else ""),
+                              labs.split(":")[1]))
+                n_nodes += 1
+            elif c == "update":
+                steps.append(("write", "MATCH (n) WHERE id(n) = %d SET n.p = %s" % (rng.randrange(n_nodes), lit_text(val()))))
+            elif c == "byvalue":
+                steps.append(("write", "MATCH (n:L1) WHERE n.p = %s SET n.p = %s" % (lit_text(val()), lit_text(val()))))
+            elif c == "remprop":
+                steps.append(("write", "MATCH (n) WHERE id(n) = %d REMOVE n.p" % rng.randrange(n_nodes)))
+            elif c == "addlabel":
+                steps.append(("write", "MATCH (n) WHERE id(n) = %d SET n:%s" % (rng.randrange(n_nodes), rng.choice(["L1", "L2"]))))
+            elif c == "remlabel":
+                steps.append(("write", "MATCH (n) WHERE id(n) = %d REMOVE n:%s" % (rng.randrange(n_nodes), rng.choice(["L1", "L2"]))))
+            elif c == "delete":
+                steps.append(("write", "MATCH (n) WHERE id(n) = %d DETACH DELETE n" % rng.randrange(n_nodes)))
+            elif c == "compact":
+                steps.append(("admin", "#compact"))
+            else:
+                steps.append(("admin", rng.choice(["#reopen", "#close-reopen"])))
+        for indexed in (True, False):
+            cases, cid = [], 0
+            for step in steps:
+                mode, q = step[0], step[1]
+                first_label = step[2] if len(step) > 2 else ""
+                if q.startswith("#index") and not indexed:
+                    continue
+                cid += 1
+                cases.append({"cid": cid, "kind": "admin" if mode == "admin" else "write", "mode": mode, "query": q,
+                              "dump": True, "meta": {"indexed": indexed, "index_op": q.startswith("#index"), "first_label": first_label}})
+                lk, cid = lookup_cases(cid, indexed)
+                cases += lk
+            sessions.append({"id": "idx/%d%s" % (h, "i" if indexed else "n"), "setup": [], "dump": True, "cases": cases})
+    return sessions
+
+
+# ----------------------------------------------------------------------------- C33: limits
+LIM_GRAPH = ["UNWIND range(1, 6) AS i CREATE (:N {v: i})",
+             "MATCH (a:N), (b:N) WHERE a.v < b.v AND (b.v - a.v) <= 2 CREATE (a)-[:E]->(b)"]
+LIM_QUERIES = [
+    ("UNWIND range(1, $n) AS a UNWIND range(1, $m) AS b RETURN a, b", {"n": 40, "m": 30}),
+    ("UNWIND range(1, $n) AS a UNWIND range(1, $m) AS b RETURN count(*) AS c", {"n": 200, "m": 100}),
+    ("UNWIND range(1, $n) AS x RETURN collect(x) AS l", {"n": 300}),
+    ("UNWIND range(1, $n) AS x RETURN x % 10 AS k, count(*) AS c, collect(x) AS l", {"n": 400}),
+    ("UNWIND range(1, $n) AS x RETURN x ORDER BY x DESC LIMIT 5", {"n": 2000}),
+    ("UNWIND range(1, $n) AS x WITH x WHERE x % 7 = 0 RETURN count(x) AS c", {"n": 3000}),
+    ("MATCH (a), (b), (c) RETURN count(*) AS c", {}),
+    ("MATCH (a)-[*1..4]->(b) RETURN count(*) AS c", {}),
+    ("MATCH (a)-[*1..3]->(b) RETURN id(a) AS a, id(b) AS b", {}),
+    ("MATCH (a:N) OPTIONAL MATCH (a)-[:E]->(b) RETURN a.v AS a, collect(b.v) AS bs", {}),
+    ("MATCH (a:N), (b:N) WHERE a.v < b.v RETURN a.v AS a, b.v AS b ORDER BY a, b", {}),
+    ("MATCH (a:N) WITH collect(a.v) AS vs UNWIND vs AS x UNWIND vs AS y RETURN DISTINCT x + y AS s", {}),
+    ("UNWIND range(1, $n) AS x RETURN DISTINCT x % 50 AS k", {"n": 1500}),
+    ("UNWIND range(1, $n) AS x RETURN sum(x) AS s, min(x) AS lo, max(x) AS hi", {"n": 5000}),
+]
+
+
+def limit_sessions(tier, seed):
+    rng = random.Random(seed)
+    cases = []
+    reps = 1 if tier == "quick" else 6
+    cid = 0
+    for rep in range(reps):
+        for q, params in LIM_QUERIES:
+            opts = []
+            for _ in range(4):
+                opts.append({"max_intermediate_rows": rng.choice([1, 10, 100, 1000, 100000, 500000]),
+                             "max_collection_items": rng.choice([1, 5, 50, 5000, 200000]),
+                             "max_apply_rows_per_outer": rng.choice([1, 10, 1000, 200000]),
+                             "soft_timeout_ms": rng.choice([0, 5000, 5000, 5000])})
+            opts.append({"soft_timeout_ms": 1})
+            p = dict(params)
+            if rep and "n" in p:
+                p["n"] = max(1, int(p["n"] * rng.choice([0.1, 0.5, 1, 2])))
+            cid += 1
+            cases.append({"cid": cid, "kind": "lim", "query": q, "params": p, "options_list": opts,
+                          "options": {"soft_timeout_ms": 60000},
+                          "meta": {"time_slack_ms": 1500, "count_slack": 1}})
+    return [{"id": "lim", "setup": LIM_GRAPH, "cases": cases}]
